@@ -123,6 +123,23 @@ class PySnmpCodeGen(IntermediateCodeGen):
 
         translateOids(context)
 
+        # Texts end up inside Python string literals: keep backslashes and
+        # line breaks from being taken for escapes or ending the literal
+
+        def escapeTexts(dct):
+            for key, value in tuple(dct.items()):
+                if isinstance(value, dict):
+                    escapeTexts(value)
+
+                elif (key in ('description', 'reference', 'organization',
+                              'contactinfo', 'units', 'displayhint',
+                              'productrelease') and
+                        isinstance(value, (str, unicode))):
+                    dct[key] = value.replace('\\', '\\\\').replace(
+                        '\n', '\\n').replace('\r', '\\r')
+
+        escapeTexts(context)
+
         # Translate SMI types into pysnmp class names
 
         # Sort Managed Objects by OID
